@@ -31,6 +31,12 @@ def corpus():
                  (10, 360), (-170, 180), (10, 0), (190, 180), (0, 0), (360, 360), (-180, -180), (180, 180), (0, 180), (180, 360),
                  (359.9970703125, 0), (0, 359.9970703125), (170, 10), (-10, 350.5)]:
         cs.append(mk(float(w), float(e), -10.0, 10.0, LONS, [0.0] * len(LONS), "corpus"))
+    # bounds and longitudes in DECIMAL degrees (no exact binary image: the modulo arithmetic rounds): judged with a tolerance, except for what
+    # needs none - a longitude that IS a bound of the region (the same number) lies inside the returned region, and equal inputs give equal outputs
+    for w, e in [(350.0, 0.1), (350.3, 10.7), (-20.1, 20.2), (-70.3, -60.1), (0.1, 200.3), (190.2, 170.6), (-0.3, 0.4), (359.9, 0.7), (-179.9, 179.8), (10.1, 359.7)]:
+        mid = w + (((e - w) % 360.0) or 360.0) / 3.0
+        lons = [w, e, mid, w, e, (w + 360.0) if w + 360.0 <= 360.0 else (w - 360.0) if w - 360.0 >= -180.0 else w]
+        cs.append(mk(w, e, -10.1, 10.3, lons, [0.1] * len(lons), "decimal-degrees"))
     cs.append(mk(-181.0, 0.0, 0.0, 1.0, [], [], "invalid"))
     cs.append(mk(0.0, 361.0, 0.0, 1.0, [], [], "invalid"))
     cs.append(mk(-100.0, 300.0, 0.0, 1.0, [], [], "invalid"))
@@ -130,6 +136,9 @@ def compare(case, io, mo):
     if e:
         return e
     mv = C.tofloat(mo)
+    if case["kind"] == "decimal-degrees":
+        ok = all(abs(x - y) <= 1e-9 for x, y in zip(io[0], mv[0])) and len(io[1]) == len(mv[1]) and all(abs(x - y) <= 1e-9 for x, y in zip(io[1], mv[1]))
+        return "ok" if ok else f"diff:{io} vs {mv} (decimal degrees, 1e-9)"
     if io[0] != mv[0]:
         return f"diff:region {io[0]} vs {mv[0]}"
     if io[1] != mv[1]:
@@ -168,6 +177,21 @@ def oracle(case, io):
         return "valid input rejected: " + io[1]
     A = analyse(w, e)
     if A["approx"] or not A["rep"]:
+        return None
+    if case["kind"] == "decimal-degrees":
+        (W, E, S, N), olons, olats = io
+        if W > E or abs((E - W) - float(A["a"])) > 1e-9:
+            return f"returned region ({W}, {E}) is not the arc of {float(A['a'])} degrees from {w} eastwards to {e}"
+        for x, y in zip(lons, olons):
+            if min(abs(((y - x) % 360.0)), abs(((y - x) % 360.0) - 360.0)) > 1e-9:
+                return f"longitude {x} -> {y} not congruent modulo 360"
+            if x in (w, e) and not (W <= y <= E):
+                return (f"the longitude {x} IS a bound of the region ({w}, {e}) but comes back as {y!r}, outside the returned region "
+                        f"({W!r}, {E!r}): the bounds belong to the region")
+        for i, x in enumerate(lons):
+            for j in range(i):
+                if lons[j] == x and olons[j] != olons[i]:
+                    return f"the same longitude {x} comes back as {olons[j]!r} and as {olons[i]!r}"
         return None
     (W, E, S, N), olons, olats = io
     W, E = C.fq(W), C.fq(E)
